@@ -101,6 +101,18 @@ CHECKS = {
    text="The protocol is decided exhaustively on the model; on the real library every reader phase is checked for the absence of any hooked write (including in the first single-threaded run) and for digest equality of everything the consulting API reports with the single-threaded run, the adopted PROT_READ copy turns any write to topology memory by a consulting call into a crash, and the registry events emitted under the components mutex are replayed against RegInit/RegFini. Real schedules are sampled, not enumerated: that part is exploration.",
    design_ref="DESIGN.md section 6, C17",
    note="Trusted: TLC, the four guarded hooks (add-only, HWLOC_VERIF), the digest battery. Race-freedom is decided only for the shared state the model names plus all topology memory (through the read-only mapping); no ThreadSanitizer verdict is used."),
+ "C19": dict(
+   technique="Explicit TLA+ protocol model of the master / writer / adopter sharing protocol (spec/Shmem.tla, MC_Shmem.tla: file images with damaged-field sets, address-range preparation, up to two adopted topologies, the 54-call alphabet on an adopted copy) checked by TLC (exhaustive BFS over five focused configurations plus simulation; invariants on adoption provenance, range disjointness, allowed-set changes); every emitted history is replayed on the rebuilt ASan/UBSan library in separate forked processes inside a PROT_NONE reservation by harness/hwv_shmem.c and validated by TLC against spec/TraceShmem.tla",
+   category="model_checking",
+   text="Model checking of the bounded protocol plus conformance. The model is exhaustive within its bounds and every edge (seeded sample in quick) is validated on the real code with a full-equality oracle (projection, XML digest, store queries, mapping bytes, file bytes around the segment). Guard pages and an 8-byte size sweep make any length underestimate a crash. Not a proof: finite topologies and histories, one ABI.",
+   design_ref="DESIGN.md section 6, C19 and section 12.3",
+   note="Trusted: project.h, the FNV digests, Linux mmap semantics (hinted mmap, MAP_FIXED_NOREPLACE probe), the recorder's environment model Prepared/Avail. The adopter is always a fork of the master (same layout); cross-ABI is simulated by flipping header and ABI bytes. ENOMEM paths and object-level calls without a topology argument are not driven."),
+ "C20": dict(
+   technique="TLC enumerates hwloc-calc, hwloc-distrib, lstopo and hwloc-diff+patch command lines from a TLA+ accumulator model (spec/Calc.tla, MC_Calc.tla) evaluated on the projection of the very input the tools load; every invocation of the tool binaries rebuilt from the working tree (tools/build_utils.sh, ASan+UBSan) is one trace event validated by TLC against the documented-grammar relations of spec/TraceCalc.tla",
+   category="model_checking",
+   text="Conformance by trace validation over a bounded, striped enumeration: about 8k invocations in quick and about 130k in thorough, over 13 input families. Every enumerated command line is judged exactly for set equality in the documented output language, list / count / feedback consistency, export text equality and reload equivalence. Not a proof: alphabet, sequence length (<= 3) and topologies are bounded and sampled by stripe.",
+   design_ref="DESIGN.md section 6, C20 and section 12.3",
+   note="Trusted: that harness/hwv_calc.c configures its load as each tool does (bound to the tool's options in TraceCalc.tla), Python's stdout line splitting and exit/signal recording, BitmapStr's output-language operators. Not modelled: --no-smt, --cpukind, --local-memory, --best-memattr, stdin mode, type filters, hwloc-distrib --ignore. Where hwloc(7) leaves a location open only exit status and absence of crash are checked."),
 }
 NA_REASON = {}
 
